@@ -165,6 +165,7 @@ def run(ctx):
     inserts = [(bi, t) for bi, t in fn.calls() if t["callee"].get("name") == "insert" and bi in fn.cfg.reachable
                and I.callee_path(t).startswith("std::collections::HashMap")]
     seen_variants = {}
+    unread_keys = False
     for bi, t in inserts:
         key = P.strip(pr.operand(t["args"][1]))
         val = P.strip(P.narrow_variants(pr.operand(t["args"][2])))
@@ -185,7 +186,9 @@ def run(ctx):
                         if es and all(e[0] == "agg" and e[1].startswith("adt:" + RANK_PAIR + "::") for e in es):
                             elems, case_loop, case_items = es, lp, list(src_[2])
         if elems is None:
-            ctx.violation(rule, f"{fn.path}|insert-key", f"inserted key is not a rank pair literal: {P.show(key)[:60]}", fn=fn.path, file=fn.file, line=fn.blocks[bi]["line"])
+            unread_keys = True
+            ctx.violation(rule, f"{fn.path}|insert-key", f"fail closed: the inserted key is not a rank pair literal RankPair::V(..) the rule can read: {P.show(key)[:60]}",
+                          fn=fn.path, file=fn.file, line=fn.blocks[bi]["line"], construct="unrecognised shape of the reported rank pair")
             continue
         V = "/".join(e[1].rsplit("::", 1)[-1] for e in elems)
         ranks = [P.strip(o) for o in elems[0][2]]
@@ -292,7 +295,9 @@ def run(ctx):
                     combo = tuple(cards)
                     table = exp[V_c]
                     member = combo in table or (V_c == "Pocket" and tuple(sorted(combo, key=str)) in [tuple(sorted(x, key=str)) for x in table])
-                    if not member:
+                    if not member and any(None in c_ for c_ in combo):
+                        problems.append(f"fail closed: the probe combo of {V_c} could not be read (not CardPair::new(Card::new(rank field, Suit::X), ..))")
+                    elif not member:
                         problems.append(f"probe combo {combo} is not one of the {len(table)} combos of {V_c}")
         if all_call is not None:
             src = P.strip(all_call[2][0], calls=False)
@@ -369,7 +374,7 @@ def run(ctx):
         for v in Vs:
             seen_variants[v] = True
     for V in ("Pocket", "Suited", "Ofsuit"):
-        if V not in seen_variants:
+        if V not in seen_variants and not unread_keys:
             ctx.violation(rule, f"{fn.path}|{V}-never-reported", f"rank_pairs() never reports a {V} rank pair", fn=fn.path, file=fn.file, line=fn.line)
     # the returned map is the one receiving the inserts
     ret = P.strip(pr.local(0))
